@@ -333,7 +333,32 @@ func mergeRounds(c *ctx, rounds int, syn bool, parts []int, checkMaps bool, prop
 			if round == 1 && s == 0 {
 				c.Sample(map[string]interface{}{"merge": clip(key)})
 			}
+			// a preceding merge of the same inputs abandoned at a random write (whatever merges keep
+			// in pools must not leak into the next one)
+			abandoned := ""
+			if c.R.Chance(3) {
+				segs := make([]segment.Segment, len(mc.ins))
+				for j, e := range mc.ins {
+					segs[j] = e.seg
+				}
+				total := 64
+				for _, e := range mc.ins {
+					total += len(segBytes(e))
+				}
+				for try := 0; try < 4; try++ {
+					ch := make(chan struct{})
+					cl := &closer{k: uint64(c.R.Intn(total)), ch: ch}
+					apath := zh.TmpPath("abandoned")
+					_, _, aerr := zap.VerifMerge(segs, mc.bitmaps(), apath, mc.mode, ch, cl)
+					os.Remove(apath)
+					abandoned += fmt.Sprintf("\n(preceded by a merge of the same inputs abandoned after %d bytes had been written: %v)", cl.k, aerr)
+					c.Count("preceded_by_abandoned_merge")
+				}
+			}
 			bad, r, spec := mergeVerdict(c, mc, parts, checkMaps)
+			if bad != "" {
+				bad += abandoned
+			}
 			if bad == "" && extra != nil {
 				bad = extra(mc, r, spec)
 			}
